@@ -43,14 +43,16 @@ class T:
             u = self.uid()
             k = r.random()
             if selected:
-                if k < .4: out.append('  ldi r16, %d' % (u % 256))
+                if k < .08: out.append(r.choice(['  .db ".endif", 0', '  nop ; .else', '  nop // .endif', '  .db ".else"', '  nop /* .elif 0 */', '; .endif', '  .db ".if 0", 0']))   # directive words in strings and comments are text
+                elif k < .4: out.append('  ldi r16, %d' % (u % 256))
                 elif k < .55: out.append('lab%d: nop' % u)
                 elif k < .7: out.append('  .db %d, %d' % (u % 256, (u * 7) % 256))
                 elif k < .8: out.append('  .message "m%d"' % u)
                 elif k < .9: out.append('  .equ e%d = %d' % (u, u))
                 else: out.append('  .dw lab_fwd')
             else:
-                if k < .2: out.append('  ldi r17, %d' % (u % 256))
+                if k < .1: out.append(r.choice(['  .db ".endif"', '; .endif', '  // .else', '  /* .elif 1 */', '  .message ".endif"', '  .db ".else", 0', '  nop ; .endif', '.endif_not_a_directive:', '  .dw 1 ; .elif 1']))
+                elif k < .2: out.append('  ldi r17, %d' % (u % 256))
                 elif k < .3: out.append('lab_fwd: nop')            # duplicate of the label defined at the end
                 elif k < .4: out.append('  garbage here (( %d' % u)
                 elif k < .5: out.append('  .error "must not be seen %d"' % u)
